@@ -30,7 +30,13 @@ NAME_POOL = [
     "colon:at@.gmi", "UPPER.GMI", "l" * 200 + ".gmi", "\udcff\udcfe.gmi", "star*.gmi", "~tilde", "%2e%2e", "%2F",
     "cafe\u0301.gmi", "caf\u00e9.gmi", "\u212bngstrom.gmi", "\u00c5ngstrom.gmi", "d" * 120, "a.gmi.tmp", "b.txt.tmp", ".a.gmi.tmp",
     "..data", "...", "..hidden.txt", "...notes.txt", "x..y",
+    # names that end or begin with white space (ASCII and not), and a name next to its own extension-less twin
+    "draft ", "draft", "nbsp\u00a0", "wide\u3000", " lead.gmi", "notes", "notes.gmi", "a",
 ]
+# words harvested from the source of the tree under test (reserved prefixes, special-cased names), see srcdict
+from . import srcdict as _srcdict  # noqa: E402
+
+NAME_POOL += [n_ for n_ in _srcdict.file_names() if n_ not in NAME_POOL]
 
 
 def sentinel(rel: str) -> str:
